@@ -174,7 +174,7 @@ def st_case(draw):
     if intent_representable:
         # constructed to be representable in the chosen dialect (the oracle still decides with the reference pair)
         banned = {'quoted': '\r\n', 'quoted_rfc': '', 'simple': '\r\n' + dlm, 'whitespace': '\r\n ', 'monocolumn': '\r\n'}[policy]
-        pool = [x for x in ['"', ' ', '\t', '\r', '\n', '\r\n', '""', 'a', 'é', 'ÿ', '\xa0', ' "', '" ', 'b c'] + [c for c in dlm] + ([dlm] if dlm else []) if not any(ch in banned for ch in x)]
+        pool = [x for x in ['"', ' ', '\t', '\r', '\n', '\r\n', '""', 'a', 'é', 'ÿ', '\xa0', ' "', '" ', 'b c', '\xef\xbb\xbf', '\n\xef\xbb\xbf', '\x0b', '\x1c', '\x85'] + ([] if encoding == 'latin-1' else ['\ufeff', '\n\ufeff', '\u2003']) + [c for c in dlm] + ([dlm] if dlm else []) if not any(ch in banned for ch in x)]
         piece = st.one_of(st.sampled_from(pool), st.sampled_from(pool), ordinary.filter(lambda c: c not in banned), st.sampled_from(['a', 'b', 'xy', '1']))
     else:
         piece = st.one_of(special, special, ordinary, st.sampled_from(['a', 'b', 'xy']))
